@@ -264,6 +264,7 @@ fn deps_mode(raw: &[Value], scratch: &Path) -> Summary {
         let uris: Vec<String> = kinds.iter().enumerate().map(|(k, kind)| match kind.as_str() {
             "libcnb-known" => "libcnb:verif/known".to_string(),
             "libcnb-unknown" => "libcnb:verif/unknown".to_string(),
+            "libcnb-invalid" => ["libcnb:app", "libcnb:verif/two_java!", "libcnb:config", "libcnb:sbom", "libcnb:verif known"][(i + k) % 5].to_string(),
             "relative" => format!("../rel{k}/bp"),
             "absolute" => format!("/abs/./path{k}/../kept-verbatim"),
             // (deliberately not in RFC 3986 normal form: "copied verbatim" means exactly that)
